@@ -1,7 +1,7 @@
 (* C04 — honest issue-hold-present-verify flows always verify.
    Property theorems only; every proof is `exact <lemma>`. PARTIAL: see C04_statement. *)
 From Coq Require Import List String ZArith NArith Bool.
-From AV Require Import Model.VTypes Model.CL Model.VerifierLegacy Model.VCfg Model.Prover Model.PProps Proofs.C04Proofs Proofs.C04F10 Proofs.C04G6 Proofs.C06S1 Proofs.C06S4 Proofs.C06S5 Proofs.C04R1 Proofs.C04R2 Model.VProps.
+From AV Require Import Model.VTypes Model.CL Model.VerifierLegacy Model.VCfg Model.Prover Model.PProps Proofs.C04Proofs Proofs.C04F10 Proofs.C04G6 Proofs.C06S1 Proofs.C06S4 Proofs.C06S5 Proofs.C04R1 Proofs.C04R2 Model.VProps Model.VerifierW3C Proofs.VW3CC1 Proofs.VW3CC2 Proofs.VW3CC3 Proofs.VW3CC4.
 Import ListNotations.
 
 (* the full statement, for both formats (composition of the prover and verifier models over every
@@ -111,6 +111,42 @@ Theorem C04_fixed_search_on_witness :
   honest_w3c cfg_fixed pcfg_fixed s_case = true /\ flow_w3c cfg_fixed pcfg_fixed s_case = Some Accept.
 Proof. exact c04_fixed_search_on_witness. Qed.
 
+(* W3C FORMAT, the request-data stage (check_request_data: the credential searches of every referent and the
+   issuer / verification-method comparison), for EVERY request, context and list of presented entries and every
+   setting of the behaviour flags with the credential-definition gate on:
+   (1) the searches never miss an eligible entry - if some entry shows the attribute with the value its sub-proof
+   reveals (or its schema holds the attribute), resp. proves the predicate, and meets the referent's conditions, the
+   search succeeds, in whichever pass (strict / last resort) it is found; *)
+Theorem C04_w3c_search_never_misses_attribute : forall cfg R cx cs name q nr,
+  schemas_present cx cs ->
+  (exists w b, In w cs /\ (rev_candidate cfg R cx name q nr w = Some b \/ unrev_candidate cfg R cx name q nr w = Some b)) ->
+  exists l, check_attribute cfg R cx cs name q nr = ROk l.
+Proof. exact check_attribute_complete. Qed.
+Theorem C04_w3c_search_never_misses_predicate : forall cfg R cx cs pi,
+  (exists w b, In w cs /\ pred_candidate cfg R cx pi w = Some b) -> exists l, check_predicate cfg R cx pi cs = ROk l.
+Proof. exact check_predicate_complete. Qed.
+(* (2) the conditions of a referent on an entry are met exactly by a true restriction and a met demand (C06 / C08 hold
+   the two halves; see C08_w3c_conditions_complete), so: every name of every attribute referent served by an entry
+   whose restriction is true and whose demand is met, every predicate proved by such an entry, every entry naming the
+   issuer and credential definition the verifier knows for it => the stage succeeds. *)
+Theorem C04_w3c_request_data_complete : forall cfg, f_gate_on_creddef cfg = true -> forall R cx cs,
+  schemas_present cx cs -> entries_named cx cs ->
+  (forall r ai n, In (r, ai) (rq_attrs R) -> In n (names_of ai) -> attr_name_served cfg R cx cs ai n) ->
+  (forall r pi, In (r, pi) (rq_preds R) -> pred_served cfg R cx cs pi) ->
+  exists needs, check_request_data cfg R cx cs = ROk needs.
+Proof. exact w3c_request_data_complete. Qed.
+(* the premises are met by what the prover model builds for the honest case s_case (a revocable credential shown with a
+   timestamp, an interval on one referent, a second credential) and the conclusion is what the verifier model computes *)
+Theorem C04_w3c_request_data_nonvacuous :
+  exists P cs,
+    create_w3c pcfg_fixed s_req s_cx 7 (pc_sel s_case) = ROk P /\
+    mapR (fun c => bind (of_opt (wc_pv c)) (fun pv => ROk (c, pv))) (wp_creds P) = ROk cs /\
+    schemas_present s_cx cs /\ entries_named s_cx cs /\
+    (forall r ai n, In (r, ai) (rq_attrs s_req) -> In n (names_of ai) -> attr_name_served cfg_fixed s_req s_cx cs ai n) /\
+    (forall r pi, In (r, pi) (rq_preds s_req) -> pred_served cfg_fixed s_req s_cx cs pi) /\
+    check_request_data cfg_fixed s_req s_cx cs = ROk [].
+Proof. exact w3c_request_data_nonvacuous. Qed.
+
 Print Assumptions C04_legacy_plain.
 Print Assumptions C04_plain_nonvacuous.
 Print Assumptions C04_legacy_rev.
@@ -122,3 +158,7 @@ Print Assumptions C04_sub_proof_verifies_partial.
 Print Assumptions C04_unfixed_search_refuted.
 Print Assumptions C04_unfixed_refuted.
 Print Assumptions C04_fixed_on_witness.
+Print Assumptions C04_w3c_search_never_misses_attribute.
+Print Assumptions C04_w3c_search_never_misses_predicate.
+Print Assumptions C04_w3c_request_data_complete.
+Print Assumptions C04_w3c_request_data_nonvacuous.
